@@ -27,13 +27,13 @@ type KV struct {
 	V *J
 }
 
-func jNull() *J          { return &J{K: 'n'} }
-func jBool(b bool) *J    { return &J{K: map[bool]byte{true: 't', false: 'f'}[b]} }
-func jNum(t string) *J   { return &J{K: '#', S: t} }
-func jInt(i int64) *J    { return &J{K: '#', S: strconv.FormatInt(i, 10)} }
-func jStr(s string) *J   { return &J{K: 's', S: s} }
-func jArr(xs ...*J) *J   { return &J{K: '[', A: xs} }
-func jObj(kvs ...KV) *J  { return &J{K: '{', O: kvs} }
+func jNull() *J            { return &J{K: 'n'} }
+func jBool(b bool) *J      { return &J{K: map[bool]byte{true: 't', false: 'f'}[b]} }
+func jNum(t string) *J     { return &J{K: '#', S: t} }
+func jInt(i int64) *J      { return &J{K: '#', S: strconv.FormatInt(i, 10)} }
+func jStr(s string) *J     { return &J{K: 's', S: s} }
+func jArr(xs ...*J) *J     { return &J{K: '[', A: xs} }
+func jObj(kvs ...KV) *J    { return &J{K: '{', O: kvs} }
 func kv(k string, v *J) KV { return KV{k, v} }
 
 func (j *J) get(k string) *J {
@@ -329,8 +329,8 @@ func sortedBytes(s string) string {
 // ---- writer with a choice of layout (used by the generator) ------------------------------
 
 type layout struct {
-	ws      func() string // whitespace between tokens
-	escape  func(rune) bool
+	ws     func() string // whitespace between tokens
+	escape func(rune) bool
 }
 
 func (j *J) write(sb *strings.Builder, l *layout) {
